@@ -12,6 +12,8 @@ Shape B.  Families of shards:
 * ``w``      -- all W arrays of <= 3 items from an 8-item pool x DW x {Identity-H, 90ms-RKSJ-H}; W2/DW2 x vertical CMaps.
 * ``ttf``    -- embedded TrueType cmap tables (formats 0, 4, 12; platform filtering) under Adobe-Identity.
 * ``coll``   -- predefined CMap + character collection wiring through a document; odd-length identity strings.
+* ``fb``     -- ToUnicode maps that omit shown codes: fall back to the collection / the embedded TrueType cmap.
+* ``c2g``    -- CIDToGIDMap (name, plain and Flate streams; identity, shifted, permuted) with an embedded TrueType cmap.
 * ``tj``     -- every TJ array of <= 4 elements over {two-glyph string, one-glyph string, +250, -500} followed by
                another TJ and a Tj, for vertical and horizontal composite fonts with default and explicit metrics:
                pen displacement (w - Tj/1000) * Tfs along the writing direction, the other coordinate unchanged.
@@ -62,8 +64,8 @@ META = {
         "longest-defined-code walk); only the codec family ties them to an independent source (Python codecs)",
         "bytes that do not begin a defined code: only the CIDs before the first such byte are judged (the statement "
         "does not say how undefined codes resynchronise); notdef ranges are not modelled",
-        "embedded (non-predefined) encoding CMap streams, CIDToGIDMap other than Identity, ToUnicode fallback to the "
-        "collection for codes a ToUnicode map omits, and duplicate ToUnicode sources are not generated",
+        "embedded (non-predefined) encoding CMap streams (the statement names the predefined CMaps only; notdef and "
+        "cidrange of embedded CMaps therefore too) and duplicate ToUnicode sources are not generated",
         "vertical glyph boxes are not judged except the horizontal origin shift -vx of explicit W2 entries; "
         "pen displacement and LTChar.adv are",
         "strings longer than the bound, bytes outside the alphabet, W arrays with more items than the bound are not explored",
@@ -1205,6 +1207,124 @@ def build_tj(arr, fi: int, metrics: int):
     return pdf, exp, vertical
 
 
+# ------------------------------------------------------------------ ToUnicode that omits codes: fall back
+# Precedence of the statement: the ToUnicode entry; for a code the map omits, the character collection or the
+# embedded TrueType cmap; only then the placeholder.
+FB_KINDS = ["japan1-H", "japan1-V", "ttf", "korea1-H"]
+FB_COVER = ["none-of-the-shown", "first-two", "every-second", "all"]
+FB_SPELL = ["bfchar", "bfrange"]
+
+
+def fb_cases():
+    for k in FB_KINDS:
+        for c in FB_COVER:
+            for sp in FB_SPELL:
+                yield ("fb", k, c, sp)
+
+
+def build_fb(kind: str, cover: str, spell: str):
+    doc = Doc()
+    vertical = kind.endswith("-V")
+    if kind == "ttf":
+        ff2 = ttf_file([(3, 1, ttf_fmt4([(0x41, 0x46, "delta", 5)]))])
+        cids = [5, 6, 7, 8, 9, 10]
+        base = {c: chr(0x41 + i) for i, c in enumerate(cids)}
+        ros, sub, tag = ("Adobe", "Identity", 0), "CIDFontType2", "truetype-cmap"
+    else:
+        coll = "Adobe-Japan1" if kind.startswith("japan1") else "Adobe-Korea1"
+        um = load_pickle("to-unicode-" + coll)["CID2UNICHR_V" if vertical else "CID2UNICHR_H"]
+        sample = "あいうアイウ" if coll == "Adobe-Japan1" else "가각간갇갈갉"
+        inv: Dict[str, int] = {}
+        for cid in sorted(um):
+            if um[cid] in sample:
+                inv.setdefault(um[cid], cid)
+        cids = sorted(inv[ch] for ch in sample)  # ascending, so that a bfrange can cover neighbours
+        base = {c: um[c] for c in cids}
+        ff2 = None
+        ros, sub, tag = (coll.split("-")[0], coll.split("-")[1], 2), "CIDFontType0", "collection"
+    if cover == "none-of-the-shown":
+        covered = []
+    elif cover == "first-two":
+        covered = cids[:2]
+    elif cover == "every-second":
+        covered = cids[::2]
+    else:
+        covered = list(cids)
+    tgt = {c: "T%d" % i for i, c in enumerate(covered)}
+    entries = [("char", b"\xff\xf0", "never shown")]
+    if spell == "bfchar":
+        entries += [("char", c.to_bytes(2, "big"), tgt[c]) for c in covered]
+    else:
+        entries += [("array", c.to_bytes(2, "big"), c.to_bytes(2, "big"), [tgt[c]]) for c in covered]
+    exp = []
+    for c in cids:
+        exp.append({"text": tgt.get(c, base[c]), "adv": Fraction(-FS if vertical else FS), "vert": vertical, "tag": "tounicode" if c in tgt else "fallback-" + tag, "note": f"cid {c}"})
+    pdf = type0_doc("Identity-V" if vertical else "Identity-H", [b"".join(c.to_bytes(2, "big") for c in cids)], ros=ros, tou=tou_stream(entries, "canonical"), ff2=ff2, sub=sub, doc=doc)
+    return pdf, exp, vertical
+
+
+def classify_fb(kind, e, got):
+    if kind == "text" and e is not None and e.get("tag", "").startswith("fallback-") and isinstance(got, str) and got.startswith("(cid:"):
+        return "C07/tounicode-omitted-code-no-fallback-to-" + e["tag"][len("fallback-"):]
+    return None
+
+
+# ------------------------------------------------------------------ CIDToGIDMap with an embedded TrueType cmap
+# CIDFontType2: the glyph of a CID is CIDToGIDMap[CID]; the TrueType cmap maps characters to glyphs, so the text of
+# a CID is the character whose glyph index is CIDToGIDMap[CID].
+C2G_MAPS = ["identity-name", "identity-stream", "shifted", "permuted", "flate-permuted"]
+C2G_LAYOUTS = ["ms-unicode", "unicode-platform"]
+
+
+def c2g_cases():
+    for m in C2G_MAPS:
+        for lay in C2G_LAYOUTS:
+            yield ("c2g", m, lay)
+
+
+def build_c2g(mapkind: str, lay: str):
+    import zlib
+
+    doc = Doc()
+    segs = [(0x41, 0x46, "delta", 5), (0x3042, 0x3044, "delta", 20)]
+    c2gid = seg_map(segs)  # char -> gid
+    gid2char = {g: c for c, g in c2gid.items()}
+    ff2 = ttf_file([((3, 1) if lay == "ms-unicode" else (0, 3)) + (ttf_fmt4(segs),)])
+    ncid = 32
+    if mapkind.startswith("identity"):
+        table = list(range(ncid))
+    elif mapkind == "shifted":
+        table = [(c + 3) % ncid for c in range(ncid)]
+    else:
+        table = [(c * 7 + 5) % ncid for c in range(ncid)]  # a permutation of 0..31
+    extra: Dict[str, Any] = {}
+    if mapkind == "identity-name":
+        extra["CIDToGIDMap"] = N("Identity")
+    else:
+        data = b"".join(g.to_bytes(2, "big") for g in table)
+        if mapkind == "flate-permuted":
+            extra["CIDToGIDMap"] = doc.add(Stream({"Filter": N("FlateDecode")}, zlib.compress(data)))
+        else:
+            extra["CIDToGIDMap"] = doc.add(Stream({}, data))
+    cids = [c for c in range(1, ncid) if table[c] != 0]  # glyph 0 is .notdef (the cmap's closing segment maps U+FFFF to it): not shown
+    exp = []
+    for c in cids:
+        g = table[c]
+        ch = gid2char.get(g)
+        exp.append({"text": chr(ch) if ch is not None else "(cid:%d)" % c, "adv": Fraction(FS), "tag": "cidtogidmap" if ch is not None else "unmapped", "note": f"cid {c} -> gid {g}"})
+    pdf = type0_doc("Identity-H", [b"".join(c.to_bytes(2, "big") for c in cids)], ff2=ff2, extra=extra, doc=doc)
+    return pdf, exp, False
+
+
+def make_classify_c2g(mapkind):
+    def classify(kind, e, got):
+        if kind == "text" and not mapkind.startswith("identity"):
+            return "C07/CIDToGIDMap-ignored"
+        return None
+
+    return classify
+
+
 def odd_cases():
     for enc in ("Identity-H", "Identity-V", "DLIdent-H"):
         for s in (b"\x00\x41\x00", b"\x00", b"\x00\x41\x00\x42\x43"):
@@ -1243,6 +1363,12 @@ def doc_case(c):
     if kind == "coll":
         pdf, exp, v = build_coll(c[1], c[2], c[3])
         return pdf, exp, v, "C07/collection", {"cmap": c[1], "codec": c[2], "collection": c[3]}, None
+    if kind == "fb":
+        pdf, exp, v = build_fb(c[1], c[2], c[3])
+        return pdf, exp, v, "C07/tounicode-fallback", {"font": c[1], "covered": c[2], "spelling": c[3]}, classify_fb
+    if kind == "c2g":
+        pdf, exp, v = build_c2g(c[1], c[2])
+        return pdf, exp, v, "C07/cidtogidmap", {"map": c[1], "layout": c[2]}, make_classify_c2g(c[1])
     if kind == "tj":
         pdf, exp, v = build_tj(c[1], c[2], c[3])
         return pdf, exp, v, "C07/TJ-" + ("vertical" if v else "horizontal"), {"array": [TJ_ELEMS[i] for i in c[1]], "encoding": TJ_FONTS[c[2]], "metrics": c[3]}, None
@@ -1272,6 +1398,8 @@ def all_doc_cases(tier: str) -> List[tuple]:
     out += list(odd_cases())
     out += list(onebyte_cases())
     out += list(tj_cases(tier))
+    out += list(fb_cases())
+    out += list(c2g_cases())
     return out
 
 
@@ -1410,6 +1538,10 @@ def replay(case):
             classify = make_classify_ttf(tuple(d["segments"]), d["layout"])
         elif d["kind"] == "v":
             classify = make_classify_w2(tuple(d["items"]))
+        elif d["kind"] == "fb":
+            classify = classify_fb
+        elif d["kind"] == "c2g":
+            classify = make_classify_c2g(d["map"])
         elif d["kind"] == "hv":
             classify = classify_hv
         elif d["kind"] == "shared":
